@@ -1310,8 +1310,8 @@ fn gen_analysis(s: &mut Session) {
     // random families
     let nmax = if s.thorough() { 300 } else { 120 };
     let mut lines = vec![];
-    for k in 0..s.budget(300, 4000) {
-        let cap = if k % 4 == 0 { nmax } else { 40 };
+    for k in 0..s.budget(1200, 4000) {
+        let cap = if k % 8 == 0 { nmax } else { 40 };
         let (g, fam) = random_graph(&mut s.rng, cap);
         s.count(&format!("graph:{}", fam));
         s.count(&format!("graph-size:{}", if g.0 <= 10 { "<=10" } else if g.0 <= 40 { "<=40" } else { ">40" }));
